@@ -39,6 +39,57 @@ def run_user_case(case, seed, mode="prim", op_switch_p=0.05):
     return r
 
 
+def examined_graph(spec, out):
+    """The graph a registry-less run examines, computed INDEPENDENTLY of the library from the spec: the output gather call,
+    its ancestors, then the removal of trivial literals in node order (a literal all of whose out-edges are plain dependencies
+    and with m predecessors, n successors, m*n <= m+n, is replaced by pred x succ dependency edges).  A correct contraction
+    preserves every cycle that passes through a node that stays (a call, a literal used as an argument, a kept literal)."""
+    g = nx.MultiDiGraph()
+    kinds = {}
+    for nd in spec["nodes"]:
+        g.add_node(nd["id"])
+        kinds[nd["id"]] = nd["kind"]
+
+    def refs(ref):
+        if "n" in ref:
+            yield ref["n"]
+        for k in ("list", "tuple", "set"):
+            for r in ref.get(k, []):
+                yield from refs(r)
+        for a, b in ref.get("dict", []):
+            yield from refs(a)
+            yield from refs(b)
+
+    for nd in spec["nodes"]:
+        if nd["kind"] == "call":
+            for r in nd["args"] + [v for _, v in nd["kwargs"]]:
+                for sidx in refs(r):
+                    g.add_edge(sidx, nd["id"], key=("arg", len(g.edges())))
+    for a, b in spec["deps"]:
+        if not g.has_edge(a, b, key="dep"):
+            g.add_edge(a, b, key="dep")
+    sink = "gather"
+    g.add_node(sink)
+    kinds[sink] = "call"
+    for o in out:
+        g.add_edge(o, sink, key=("arg", len(g.edges())))
+    keep = nx.ancestors(g, sink) | {sink}
+    g.remove_nodes_from([n for n in list(g.nodes()) if n not in keep])
+    for lit in [n for n in list(g.nodes()) if kinds[n] == "lit"]:
+        if not all(k == "dep" for _, _, k in g.out_edges(lit, keys=True)):
+            continue
+        preds, succs = list(g.predecessors(lit)), list(g.successors(lit))
+        m, n = len(preds), len(succs)
+        if m * n > m + n:
+            continue
+        for p in preds:
+            for q in succs:
+                if not g.has_edge(p, q, key="dep"):
+                    g.add_edge(p, q, key="dep")
+        g.remove_node(lit)
+    return nx.DiGraph(g)
+
+
 def monitor_user(case, r):
     v = []
     spec = case["spec"]
@@ -53,15 +104,7 @@ def monitor_user(case, r):
     sub = G.subgraph(needed)
     cyclic = not nx.is_directed_acyclic_graph(sub)
     if cyclic:
-        # "the nodes a run has to examine": without a registry that is the plan pruned to the output's ancestors AFTER the
-        # removal of trivial literals (a literal that is only depended upon is replaced by pred x succ edges), so a cycle that
-        # runs through such literals only disappears before anything is examined.  Recompute on that graph, obtained with the
-        # library's own prune_plan on a scratch copy of the plan.
-        from uberjob._transformations.pruning import prune_plan
-        plan2, N2, _ = plans.build(spec, plans.Rec(), {})
-        outn = plan2._gather(None, [N2[i] for i in out])
-        prune_plan(plan2, required_nodes=[], output_node=outn, inplace=True)
-        cyclic = not nx.is_directed_acyclic_graph(nx.DiGraph(plan2.graph))
+        cyclic = not nx.is_directed_acyclic_graph(examined_graph(spec, out))
     ev = r.rec.events
     if r.deadlock or r.hang:
         v.append(("C07", "run did not terminate (%s)" % ("deadlock" if r.deadlock else "step limit")))
